@@ -407,6 +407,7 @@ PROBE = {'hdr': {'fv': 0, 'dev': 1, 'man': 15000, 'prod': 2, 'time': 3, 'cap': 0
 
 
 def probe_variant(ctx, work):
+    _PARSELOG.append(PROBE)
     real = real_parse(work, encode_image(PROBE))
     oem_whole, desc_esc = 0, 0
     if ' | ' in real:
@@ -423,10 +424,14 @@ def probe_variant(ctx, work):
 # ------------------------------------------------------------------------------------------
 # parse streams
 # ------------------------------------------------------------------------------------------
+_PARSELOG = []      # every well-formed image this process has parsed through check_image, in order
+
+
 def check_image(ctx, drv, work, variant, label, img, sample=False):
     data = encode_image(img)
     expected = view_of(img)
-    case = {'kind': 'parse', 'label': label, 'image': img}
+    case = {'kind': 'parse', 'label': label, 'image': img, '_parsed_before': len(_PARSELOG)}
+    _PARSELOG.append(img)
     ctx.case(('parse', data), nontrivial=len(img['recs']) > 0)
     ctx.count('parse:records=%d' % len(img['recs']))
     oem_len = len(img['hdr']['oem']) // 2
@@ -569,6 +574,8 @@ def exec_history(steps):
             out.append({'view': view, 'size': s.st_size, 'mtime_ns': s.st_mtime_ns})
             if im is not None:
                 kept.append((len(out) - 1, im))
+            if st.get('unlink'):
+                os.unlink(p)
         reread = [[i, _view(im)] for i, im in kept]
     finally:
         shutil.rmtree(d, ignore_errors=True)
@@ -776,16 +783,7 @@ def history_stream(ctx, drv, variant, rng, n_random):
                 judge_parse(ctx, {'kind': 'parse', 'label': label, 'image': steps[i]['image']},
                             view_of(steps[i]['image']), res['steps'][i]['view'])
             continue
-        case, res = shrink_history(p, case, res, sig)
-        i, sig, what, exp, obs = [f for f in history_findings(case, res) if f[1] == sig][0]
-        stale = [j for j in range(i) if res['steps'][i]['view'] == expected_step(dict(case['steps'][j], api=case['steps'][i]['api']))]
-        if stale:
-            sig = 'C18:parse:earlier-image-returned'
-            what = 'the parse returns the image that was in %s at step %d, not the one in the file (%s)' % (
-                'the file' if case['steps'][stale[-1]]['slot'] == case['steps'][i]['slot'] else 'another file', stale[-1], what)
-        ctx.violate(_history_sig(sig),
-                    'step %d of a history of %d parses in one process: %s (the same file parses correctly in a process '
-                    'that has parsed nothing before)' % (i, len(case['steps']), what), case, expected=exp, observed=obs)
+        _report_history(ctx, p, case, res, sig)
     ctx.extra['history_parses'] = nsteps
 
 
@@ -809,6 +807,92 @@ def shrink_history(p, case, res, sig):
                 steps, res, progress = cand, r2, True
                 break
     return dict(case, steps=steps), res
+
+
+def _report_history(ctx, p, case, res, sig, label_note=''):
+    case, res = shrink_history(p, case, res, sig)
+    i, sig, what, exp, obs = [f for f in history_findings(case, res) if f[1] == sig][0]
+    stale = [j for j in range(i) if res['steps'][i]['view'] == expected_step(dict(case['steps'][j], api=case['steps'][i]['api']))]
+    if stale:
+        sig = 'C18:parse:earlier-image-returned'
+        what = 'the parse returns the image that was in %s at step %d, not the one in the file (%s)' % (
+            'the file' if case['steps'][stale[-1]]['slot'] == case['steps'][i]['slot'] else 'another file', stale[-1], what)
+    ctx.violate(_history_sig(sig),
+                'step %d of a history of %d parses in one process: %s (the same file parses correctly in a process '
+                'that has parsed nothing before)%s' % (i, len(case['steps']), what, label_note), case, expected=exp, observed=obs)
+
+
+def confirm_single_parses(ctx, first_index):
+    """The single-parse stream parses hundreds of images in this process, all through one path.  A violation it reports is
+    re-run alone in a pristine child; when it does not show there, the earlier parses it needs are searched for (images of
+    the same size first, then the parses just before it) and the finding is reported as a history with its own replay."""
+    p = _pristine()
+    if p is None:
+        return
+    settled, dependent, explained = set(), {}, set()
+    alone_budget, search_budget, dropped = 40, 8, 0
+    keep = ctx.violations[:first_index]
+    for v in ctx.violations[first_index:]:
+        case, sig = v['case'], v['signature']
+        n = case.pop('_parsed_before', None) if isinstance(case, dict) else None
+        if not isinstance(case, dict) or case.get('kind') != 'parse' or sig in settled:
+            keep.append(v)
+            continue
+        if sig in explained and dependent.get(sig, 0) >= 3:
+            dropped += 1        # three findings of this signature were effects of earlier parses; a history replay is reported
+            continue
+        if alone_budget <= 0:
+            keep.append(v)
+            continue
+        alone_budget -= 1
+        last = dict(_st(0, case['image'], 'natural'), unlink=True)
+        found = None
+        try:
+            if any(f[1] == sig for f in history_findings({'steps': [last]}, p.call('history', [last]))):
+                settled.add(sig)
+                keep.append(v)
+                continue
+            dependent[sig] = dependent.get(sig, 0) + 1
+            if sig in explained:
+                dropped += 1
+                continue
+            if n is not None and search_budget > 0:
+                search_budget -= 1
+                size = len(encode_image(case['image']))
+                earlier = _PARSELOG[:n]
+                cands = [[e] for e in earlier if len(encode_image(e)) == size][-4:]
+                cands += [earlier[-k:] for k in (1, 2, 4, 8, 16) if earlier[-k:]]
+                for prior in cands:
+                    steps = [dict(_st(0, e, 'natural'), unlink=True) for e in prior] + [last]
+                    res = p.call('history', steps)
+                    if any(f[1] == sig and f[0] == len(steps) - 1 for f in history_findings({'steps': steps}, res)):
+                        found = (steps, res)
+                        break
+        except pristine.PristineError as e:
+            ctx.notes.append('confirmation of %s in a new process failed: %s' % (sig, str(e)[-160:]))
+            keep.append(v)
+            continue
+        if found is None:
+            v['signature'] = _history_sig(sig)
+            v['what'] += ' - NOT reproduced by this parse alone in a new process, nor after the parses that preceded it: it ' \
+                         'depends on process state the replay does not rebuild'
+            keep.append(v)
+            continue
+        explained.add(sig)
+        saved, ctx.violations = ctx.violations, keep
+        try:
+            _report_history(ctx, p, {'kind': 'history', 'label': 'found by the single-parse stream: ' + str(case.get('label')),
+                                     'steps': found[0]}, found[1], sig)
+        finally:
+            keep = ctx.violations
+            ctx.violations = saved
+    if dropped:
+        ctx.notes.append('%d further findings of the single-parse stream were effects of earlier parses in this process (not '
+                         'reproducible alone); their signatures are reported with a history replay' % dropped)
+    ctx.violations[:] = keep
+    for v in ctx.violations:
+        if isinstance(v.get('case'), dict):
+            v['case'].pop('_parsed_before', None)
 
 
 _PRISTINE = None
@@ -1210,6 +1294,14 @@ def minimise(ctx, work):
         except Exception as e:  # noqa  (minimisation is best effort)
             ctx.notes.append('minimisation of %s failed: %s' % (v['signature'], type(e).__name__))
             nv = None
+        if nv is not None and nv is not v and kind == 'parse' and _pristine() is not None:
+            # this process has parsed a lot by now: the minimised image must show the finding in a new process too
+            try:
+                st = _st(0, nv['case']['image'], 'natural')
+                if not any(f[1] == v['signature'] for f in history_findings({'steps': [st]}, _pristine().call('history', [st]))):
+                    nv = None
+            except pristine.PristineError:
+                nv = None
         if nv is not None and nv is not v:
             v.update(nv)
 
@@ -1243,6 +1335,8 @@ def _streams(ctx, tag, scale):
             if got != _nl(want):
                 ctx.disagree('generated-constants', {}, got, _nl(want))
         variant = probe_variant(ctx, work)
+        history_stream(ctx, drv, variant, ctx.rng(tag + '/history'), int(10 * scale))
+        first = len(ctx.violations)
         global _KEEP
         _KEEP = []
         rng = ctx.rng(tag + '/parse')
@@ -1257,7 +1351,7 @@ def _streams(ctx, tag, scale):
         recheck_kept(ctx)
         ctx.extra['kept_results_re_read'] = len(_KEEP or [])
         _KEEP = None
-        history_stream(ctx, drv, variant, ctx.rng(tag + '/history'), int(10 * scale))
+        confirm_single_parses(ctx, first)
         malformed_stream(ctx, drv, work, variant, ctx.rng(tag + '/malformed'), int(60 * scale))
         chunks_stream(ctx, drv, ctx.rng(tag + '/chunks'), int(150 * scale))
         upload_streams(ctx, drv, ctx.rng(tag + '/upload'), scale)
